@@ -361,3 +361,23 @@ Proof.
   assert (H1 : grid (-1) (2 * 1) 1%float) by (apply (grid_finer 0 1); exact grid_one).
   refine (conj (grid_zero _) (conj (grid_zero _) (conj H1 (conj H1 (conj _ _))))); vm_compute; reflexivity.
 Qed.
+
+Definition origin_pt : fpt := (0%float, 0%float).
+
+Example exact_inputs_hyps :
+  (gmin <= -1 <= gmax)%Z /\ cell_on_grid (-1) unit_cell /\ pt_finite origin_pt /\
+  fcontains unit_cell origin_pt = true.
+Proof.
+  split; [vm_compute; split; discriminate|].
+  split; [apply (cell_on_grid_of_b (-1) (2 ^ (prec - 40))); [vm_compute; discriminate|exact unit_cell_on_grid]|].
+  split; [split; apply (grid_zero 0)|]. vm_compute. reflexivity.
+Qed.
+
+Example no_crack_hyps :
+  (length [0; 3; 1]%nat <= 40)%nat /\ (Z.of_nat 40 <= prec)%Z /\ (gmin + Z.of_nat 40 <= -1 <= gmax)%Z /\
+  cell_on_grid_b (-1) (2 ^ (prec - Z.of_nat 40)) unit_cell /\
+  Forall (fun k => (k < 4)%nat) [0; 3; 1]%nat /\ pt_finite origin_pt.
+Proof.
+  split; [cbn; lia|]. split; [vm_compute; discriminate|]. split; [vm_compute; split; discriminate|].
+  split; [exact unit_cell_on_grid|]. split; [repeat constructor|]. split; apply (grid_zero 0).
+Qed.
